@@ -38,6 +38,7 @@ CONSTANTS MaxIter,      \* loop iteration limit of the model (the engines' own l
                         \*  "VM_DupKeyFirst"        {a: 1, a: 2} keeps the first value
                         \*  "VM_ForVarFlat"         loop variables overwrite an outer variable of the same name
                         \*  "VM_LenObjError"  builtin table difference
+                        \*  "VM_IgnoresValidation"  `? f(args)` is compiled to nothing ("for now, validation statements are ignored in compiled mode")
 
 Progs == ndJsonDeserialize("progs.ndjson")
 
@@ -620,6 +621,12 @@ Exec(s, sc, fuel) ==
                    ELSE LET r == UpdatePath(Lookup(sc, s.n).v, s.path, v.v, sc, FALSE) IN
                         IF ~r.ok THEN R(sc, "error", r.err, fuel)
                         ELSE R(SetVar(sc, s.n, r.v), "next", v.v, fuel - 1)
+      [] s.s = "check" ->         \* ? f(args): the route goes on only if the call answers true (or nothing at all)
+            IF Dev("VM_IgnoresValidation") THEN R(sc, "next", VNull, fuel - 1)
+            ELSE LET v == Eval(s.x, sc) IN
+                 IF ~v.ok THEN R(sc, "error", (IF v.err \in {"UNREP", "TOOBIG", "limit"} THEN v.err ELSE "validation"), fuel)
+                 ELSE IF v.v.k = "null" \/ (v.v.k = "bool" /\ v.v.v) THEN R(sc, "next", VNull, fuel - 1)
+                 ELSE R(sc, "error", "validation", fuel)
       [] s.s = "expr" ->
             LET v == Eval(s.x, sc) IN IF ~v.ok THEN R(sc, "error", v.err, fuel) ELSE R(sc, "next", v.v, fuel - 1)
       [] s.s = "ret" ->           \* > e   or   > e :: status
@@ -777,6 +784,7 @@ SrcS(s, n) ==
     (CASE s.s = "decl" -> "$ " \o s.n \o " = " \o SrcE(s.x, 0) \o "\n"
        [] s.s = "set" -> s.n \o " = " \o SrcE(s.x, 0) \o "\n"
        [] s.s = "pset" -> (IF s.dollar THEN "$ " ELSE "") \o s.n \o SrcPath(s.path, 1) \o " = " \o SrcE(s.x, 0) \o "\n"
+       [] s.s = "check" -> "? " \o SrcE(s.x, 0) \o "\n"
        [] s.s = "expr" -> SrcE(s.x, 0) \o "\n"
        [] s.s = "ret" -> "> " \o SrcE(s.x, 0) \o (IF s.status = 0 THEN "" ELSE " :: " \o ToString(s.status)) \o "\n"
        [] s.s = "guard" -> "? " \o SrcE(s.c, 0) \o " :: " \o ToString(s.status) \o " \"" \o EscStr(s.msg) \o "\"\n"
